@@ -144,9 +144,7 @@ theorem download_same (s : Stack) (a : Nat) (r : Resp) :
   · exact ⟨rfl, rfl⟩
   · split
     · exact ⟨rfl, rfl⟩
-    · split
-      · exact ⟨rfl, rfl⟩
-      · split <;> exact ⟨rfl, rfl⟩
+    · split <;> exact ⟨rfl, rfl⟩
 
 /-- The response `Client.roundTrip` returns has slots that agree with its http response. -/
 theorem clientRoundTrip_agrees (s : Stack) (a : Nat) : AgreesO s (clientRoundTrip s a).resp := by
@@ -214,12 +212,18 @@ theorem deferred_agrees (s : Stack) (resp : Option Resp) (err : Option Err) (h :
   · exact agrees_fresh _ _ _
   · exact h r0 rfl
 
-theorem rebind_agrees (s : Stack) (r : Resp) (hs : r.slots = {}) (hb : r.bodyCached = false)
-    (he : r.http ≠ none → r.err = none) : AgreesO s (rebind s r).resp? := by
+theorem rebind_agrees (s : Stack) (a : Nat) (r : Resp) (hs : r.slots = {}) (hb : r.bodyCached = false)
+    (he : r.http ≠ none → r.err = none) : AgreesO s (rebind s a r).resp? := by
   have := readParse_agrees s r hs hb he
   unfold rebind
   simp only []
-  split <;> (intro r' hr'; simp only [StepOut.resp?, Option.some.injEq] at hr'; subst hr'; exact this)
+  split
+  · intro r' hr'; simp only [StepOut.resp?, Option.some.injEq] at hr'; subst hr'; exact this
+  · split
+    · split
+      · intro r' hr'; simp only [StepOut.resp?, Option.some.injEq] at hr'; subst hr'; exact this
+      · intro r' hr'; simp only [StepOut.resp?, Option.some.injEq] at hr'; subst hr'; exact this.of_eq rfl rfl
+    · intro r' hr'; simp only [StepOut.resp?, Option.some.injEq] at hr'; subst hr'; exact this
 
 theorem digestResend_agrees (s : Stack) (a : Nat) (r : Resp) (re : TOut) (hs : r.slots = {}) (hb : r.bodyCached = false)
     (he : r.err = none) : AgreesO s (digestResend Fixes.all s a r re).resp? := by
@@ -231,7 +235,7 @@ theorem digestResend_agrees (s : Stack) (a : Nat) (r : Resp) (re : TOut) (hs : r
     simp [Agrees, hs]
   | resp h =>
     simp only [digestResend, Fixes.all, if_true]
-    exact rebind_agrees s _ hs hb (fun _ => he)
+    exact rebind_agrees s a _ hs hb (fun _ => he)
 
 theorem digestStep_agrees (s : Stack) (a : Nat) (ok : Bool) (re : TOut) (r : Resp) (h : Agrees s r) :
     AgreesO s (digestStep Fixes.all s a ok re r).resp? := by
